@@ -107,7 +107,14 @@ def handlePages (cmd : String) (rest : List String) : Option String :=
         let b (i : Nat) : Bool := o.toList.getD i '0' == '1'
         let opts : Opts := ⟨b 0, b 1, b 2, b 3, b 4, b 5⟩
         let files := site generatedFlags d vis opts
-        some (" ".intercalate (files.map fun f => toHex f.1 ++ "=" ++ ",".intercalate (f.2.map showAtom)))
+        -- drift check against the naming model of C19 (Gedcom.Model.PublishNames): the page keys and
+        -- place keys this document carries are the ones getUniqueKey / sanitize assign
+        let pls := if opts.pla then places generatedFlags d vis else []
+        let keys := Publish.individualKeys (d.people.map (fun p => p.pp.title)) (pls.map (·.key))
+        let keysOk := vis != .show || keys.map (· ++ Publish.html) == d.people.map (fun p => p.priv.page)
+        let placesOk := pls.all (fun p => Publish.sanitize p.pretty == p.key)
+        some (" ".intercalate (files.map fun f => toHex f.1 ++ "=" ++ ",".intercalate (f.2.map showAtom)) ++
+          s!" names={if keysOk then "ok" else "individual-keys-differ"},{if placesOk then "ok" else "place-keys-differ"}")
       | _, _ => some "bad-op"
     | _ => some "bad-op"
   | _ => none
